@@ -22,7 +22,8 @@ META = {
                 text="Theorems index_bijective / init_sound / monitor_slots / rhs_slots (unbounded) and formals_are_permutations, orders_are_permutations, argument_maps "
                      "(complete finite tables re-extracted from codegen/*.py). Every generated rhs / monitor_values / scheme is validated; index functions, init functions, "
                      "array lengths and all 6+24 argument orders are exercised on the real modules, with and without unused-variable removal (NumPy and JAX). "
-                     "GenValid.genRhs_valid / genEuler_valid: the model's generators write the result for X into slot state_index(X), every slot exactly once, for every well-formed model.",
+                     "GenValid.genRhs_valid / genEuler_valid: the model's generators write the result for X into slot state_index(X), every slot exactly once, for every well-formed model; "
+                     "GenValidMon.genMonitor_valid / genMonitor_correct: the model's monitor_values generator writes the value of the i-th sorted assignment into slot i = monitor_index, every slot once.",
                 note=TB + "C and JAX backends are exercised by the C02 / C03 checks with the same validators."),
     "C05": dict(technique="Lean 4 proof (euler = states + dt*rhs for validated programs) + translation validation + differential run",
                 text="Theorem C05.euler_eq_states_plus_dt_rhs: for programs passing checkRhs and checkScheme on the same model whose store is the Euler expression, "
